@@ -2,6 +2,7 @@ package harness
 
 import (
 	"crypto/tls"
+	"runtime"
 	"fmt"
 	"net"
 	"strconv"
@@ -543,6 +544,10 @@ func (l *simLog) OnOutgoing(b []byte) {
 	l.f.Out = append(l.f.Out, c)
 	l.f.mu.Unlock()
 	l.f.env.Rec("log:"+l.f.eng.Cfg.Name, "out", string(c), true)
+	// R2: let writeLoop (made runnable by the hand-off just before this call) take the message to
+	// the transport and return to its receive before the sender continues; otherwise the engine's
+	// non-blocking hand-off of the next queued message spins until the runtime preempts it.
+	runtime.Gosched()
 	simsync.Yield("log:OnOutgoing")
 }
 func (l *simLog) OnEvent(s string) {
